@@ -48,3 +48,17 @@ Definition pipe_eval (api : Z) (xs : list Z) (nch N gulp start nsamps md : Z) (d
   else if api =? 1 then match bandpass_pipe fs nch gulp start nsamps with Some (o, n) => to_list nch o | None => [-1] end
   else if api =? 2 then match dedisperse_pipe fs nch gulp start nsamps md dl with Some o => to_list (dedisperse_len N start nsamps 0 md) o | None => [-1] end
   else [-2].
+
+(** the same reductions at the packed depths: the blocks are those of Model.PlanPacked.run_plan_packed *)
+Require Import SPP.Model.PlanPacked.
+Definition collapse_pipe_packed (fs : list file) (nch nbits : Z) (big : bool) (gulp start nsamps : Z) (junk : arr) : option arr :=
+  match run_plan_packed fs nch nbits big gulp start nsamps collapse_skipback junk with
+  | POk bl => Some (fold_left (collapse_step nch gulp) bl zeros)
+  | PErr _ _ => None
+  end.
+Definition dedisperse_pipe_packed (fs : list file) (nch nbits : Z) (big : bool) (gulp start nsamps md : Z) (delays junk : arr) : option arr :=
+  let gulp' := dedisperse_gulp md gulp in
+  match run_plan_packed fs nch nbits big gulp' start nsamps (dedisperse_skipback md) junk with
+  | POk bl => Some (fold_left (dedisperse_step nch gulp' md delays) bl zeros)
+  | PErr _ _ => None
+  end.
